@@ -66,7 +66,7 @@ func init() {
 			}
 			return 700
 		},
-		CaseTimeout: 60 * time.Second,
+		CaseTimeout: 420 * time.Second, // the linearizability re-checks may take 2 x 120 s
 	})
 }
 
@@ -756,6 +756,8 @@ func c16ContentStep(version int64) func(st string, in linIn, out string) (bool, 
 					return !present, st
 				}
 				return present && out == "ok "+v, st
+			case "emptyprobe": // legal only while the trie is empty
+				return st == "", st
 			case "iter":
 				return out == "ok "+st, st
 			case "root":
@@ -826,6 +828,100 @@ func c16KeyModel(initial map[string]string) porcupine.Model {
 			return fmt.Sprintf("%s %s %s -> %s", in.kind, ptok(in.key), in.val, output.(string))
 		},
 	}
+}
+
+// budgets of the linearizability check; C16_LIN_MS / C16_LIN_SLOW_MS override them (used to test the fallback path)
+func c16Budget(env string, def time.Duration) time.Duration {
+	if v, err := strconv.Atoi(os.Getenv(env)); err == nil && v > 0 {
+		return time.Duration(v) * time.Millisecond
+	}
+	return def
+}
+
+func c16SlowBudget() time.Duration { return c16Budget("C16_LIN_SLOW_MS", 120*time.Second) }
+
+var c16SlowMu sync.Mutex // one long re-check at a time
+
+// c16CheckLin decides a history: porcupine with the normal budget; if that does not finish, again ALONE with a long
+// budget; if that does not finish either, per key (point operations partitioned by path with the single-key map
+// model, every iteration result turned into one lookup per key of the universe - implied by, hence weaker than, the
+// full check, but it decides). Unknown is returned only if even that does not finish: the caller fails the case.
+func c16CheckLin(model porcupine.Model, hist []porcupine.Operation, init string, tags map[string]bool) porcupine.CheckResult {
+	r := porcupine.CheckOperationsTimeout(model, hist, c16Budget("C16_LIN_MS", 10*time.Second))
+	if r != porcupine.Unknown {
+		return r
+	}
+	tags["linearizability-recheck-long"] = true
+	c16SlowMu.Lock()
+	r = porcupine.CheckOperationsTimeout(model, hist, c16SlowBudget())
+	c16SlowMu.Unlock()
+	if r != porcupine.Unknown {
+		return r
+	}
+	tags["linearizability-recheck-per-key"] = true
+	initial := parseContent(init)
+	keys := map[string]bool{}
+	for k := range initial {
+		keys[k] = true
+	}
+	for _, h := range hist {
+		in := h.Input.(linIn)
+		switch in.kind {
+		case "ins", "del", "get":
+			keys[in.key] = true
+		case "iter":
+			if out := h.Output.(string); strings.HasPrefix(out, "ok ") {
+				for k := range parseContent(out[3:]) {
+					keys[k] = true
+				}
+			}
+		}
+	}
+	var kh []porcupine.Operation
+	for _, h := range hist {
+		in := h.Input.(linIn)
+		out := h.Output.(string)
+		switch in.kind {
+		case "ins", "del", "get":
+			if out == "nodenotfound" || out == "iterchild" || out == "missingnodes" {
+				continue
+			}
+			kh = append(kh, h)
+		case "root":
+			continue // a hash: not decomposable; the final root is compared with the canonical root separately
+		case "iter", "changes":
+			content, ok := "", false
+			if in.kind == "iter" && strings.HasPrefix(out, "ok ") {
+				content, ok = out[3:], true
+			}
+			if in.kind == "changes" { // the content read back from the returned snapshot
+				ff := strings.Fields(out)
+				for i, x := range ff {
+					if x == "snap=ok" && i+1 < len(ff) && strings.HasPrefix(ff[i+1], "c=") {
+						content, ok = ff[i+1][2:], true
+					}
+				}
+			}
+			if !ok {
+				continue
+			}
+			m := parseContent(content)
+			for k := range keys {
+				o := "notpresent"
+				if v, ok := m[k]; ok {
+					o = "ok " + v
+				}
+				kh = append(kh, porcupine.Operation{ClientId: h.ClientId, Input: linIn{"get", k, ""}, Call: h.Call, Output: o, Return: h.Return})
+			}
+		default:
+			// root / change-set reads, merges: not decomposable per key; if any is present the per-key check cannot
+			// stand in for the full one
+			return porcupine.Unknown
+		}
+	}
+	c16SlowMu.Lock()
+	defer c16SlowMu.Unlock()
+	return porcupine.CheckOperationsTimeout(c16KeyModel(initial), kh, c16SlowBudget())
 }
 
 var c16Hangs int32 // cases whose child process had to be killed
@@ -1013,7 +1109,27 @@ func runC16(ops []string) (res CaseResult) {
 	childHist := map[int][]porcupine.Operation{}
 	fullState := removed
 	absentHits, updatesOK := 0, 0
-	emptyProbe, hasCmerge, nChildren := false, false, 0
+	emptyProbes, hasCmerge, nChildren := 0, false, 0
+	type hitRec struct {
+		call, ret int64
+		one       bool // records exactly one missing-node entry
+	}
+	var hits []hitRec    // operations that record missing-node entries
+	var updCalls []int64 // call times of the updates (ins/del/merges), with a bound on the nodes each can create
+	var updNodes []int
+	type pendingCheck struct {
+		i         int
+		op, kind  string
+		call, ret int64
+		n         int
+	}
+	var pending []pendingCheck // count / missing results, judged once all operations are known
+	isFresh := false
+	for _, op := range ops {
+		if op == "fresh" {
+			isFresh = true
+		}
+	}
 	for _, op := range ops {
 		if f := strings.Fields(op); len(f) == 2 && f[0] == "children" {
 			nChildren, _ = strconv.Atoi(f[1])
@@ -1040,12 +1156,16 @@ func runC16(ops []string) (res CaseResult) {
 		if f[2] == "pp" && removed {
 			onlyGetsHit = false // PrettyPrint walks the whole trie and records every absent node it meets
 		}
-		if soft && !removed && (f[2] == "allmissing" || f[2] == "pp") {
-			// GetAllMissingNodes on an EMPTY trie looks up the nil root key, returns "node not found" and records
-			// a nil key in the missing-node list. Sequential behaviour, a matter of C17 (exact missing-node
-			// detection), not of the lock discipline: tolerated here, tagged for the distribution.
+		if soft && !removed && out == "nodenotfound" && (f[2] == "allmissing" || f[2] == "pp") {
+			// GetAllMissingNodes / PrettyPrint on an EMPTY trie look up the nil root key, return "node not found" and
+			// record one nil key in the missing-node list (sequential behaviour, a matter of C17). Tolerated ONLY
+			// if the trie can be empty at some instant inside the operation: the probe goes into the history as an
+			// operation that is legal in the empty state only; the final missing-list check counts it.
 			tags[f[2]+"-on-empty-trie"] = true
-			emptyProbe = true
+			emptyProbes++
+			fullState = true
+			hits = append(hits, hitRec{call, ret, true})
+			hist = append(hist, porcupine.Operation{ClientId: tid, Input: linIn{"emptyprobe", "", ""}, Call: call, Output: out, Return: ret})
 			continue
 		}
 		if soft {
@@ -1057,6 +1177,21 @@ func runC16(ops []string) (res CaseResult) {
 			if f[2] != "get" {
 				onlyGetsHit = false
 			}
+			hits = append(hits, hitRec{call, ret, f[2] == "get" || f[2] == "ins" || f[2] == "del" || f[2] == "insempty" || f[2] == "insnil"})
+		} else if removed && (f[2] == "iter" || f[2] == "pp" || f[2] == "allmissing" || f[2] == "hasmissing") {
+			hits = append(hits, hitRec{call, ret, false}) // may have recorded entries without failing
+		}
+		switch f[2] {
+		case "ins", "del", "insempty", "insnil", "mergechild", "mergechanges", "cmerge":
+			updCalls = append(updCalls, call)
+			n := 8
+			if len(f) > 3 {
+				n += len(f[3])
+			}
+			updNodes = append(updNodes, n)
+		case "mergedb":
+			updCalls = append(updCalls, call)
+			updNodes = append(updNodes, 1<<20)
 		}
 		var in linIn
 		switch f[2] {
@@ -1166,8 +1301,30 @@ func runC16(ops []string) (res CaseResult) {
 				fail("op %d (%s): Validate returned %s on a trie that is sane at every instant (it must judge ONE state: change set and store read under one lock)", i, op, out)
 			}
 			continue
-		case "save", "savec", "count", "missing", "setver", "dbversion":
-			if strings.HasPrefix(out, "err") {
+		case "save":
+			if out != "ok" {
+				fail("op %d (%s): SaveChanges returned %s, want ok", i, op, out)
+			}
+			continue
+		case "savec":
+			if out != "ok" && out != "cancelled" {
+				fail("op %d (%s): SaveChanges with a cancelled context returned %s, want ok or cancelled", i, op, out)
+			}
+			continue
+		case "count", "missing":
+			ff := strings.Fields(out)
+			n, perr := -1, error(nil)
+			if len(ff) == 2 && ff[0] == "ok" {
+				n, perr = strconv.Atoi(ff[1])
+			}
+			if len(ff) != 2 || ff[0] != "ok" || perr != nil || n < 0 {
+				fail("op %d (%s): returned %q, want ok <n>", i, op, out)
+				continue
+			}
+			pending = append(pending, pendingCheck{i, op, f[2], call, ret, n})
+			continue
+		case "setver", "dbversion":
+			if !strings.HasPrefix(out, "ok") {
 				fail("op %d (%s): returned %s", i, op, out)
 			}
 			continue
@@ -1175,6 +1332,40 @@ func runC16(ops []string) (res CaseResult) {
 			continue
 		}
 		hist = append(hist, porcupine.Operation{ClientId: tid, Input: in, Call: call, Output: out, Return: ret})
+	}
+	for _, pc := range pending {
+		switch pc.kind {
+		case "missing":
+			// entries recorded by operations that returned before the call are in the list; only operations that
+			// started before the return can have added to it
+			lo, hi, exact := 0, 0, true
+			for _, h := range hits {
+				if h.ret < pc.call {
+					lo++
+				}
+				if h.call < pc.ret {
+					hi++
+					exact = exact && h.one
+				}
+			}
+			if pc.n < lo || (exact && pc.n > hi) {
+				fail("op %d (%s): GetMissingNodeKeys returned %d keys; %d recording operations had returned before its call, %d had started before its return", pc.i, pc.op, pc.n, lo, hi)
+			}
+		case "count":
+			// no change can be recorded before the first update starts; an update creates a bounded number of nodes
+			bound := 0
+			for k, c := range updCalls {
+				if c < pc.ret {
+					bound += updNodes[k]
+				}
+			}
+			if !isFresh {
+				bound += 1 << 20 // the builder trie's collector also holds the setup's changes
+			}
+			if pc.n > bound {
+				fail("op %d (%s): GetChangeCount returned %d although the updates started before its return can have created at most %d nodes", pc.i, pc.op, pc.n, bound)
+			}
+		}
 	}
 	// final observations as operations after everything else
 	finalRoot, finalIter, finalMissing, finalSaved := "", "", "", ""
@@ -1234,7 +1425,11 @@ func runC16(ops []string) (res CaseResult) {
 	// every child trie is a map of its own that starts from the setup content, whatever the other tries do
 	for k, h := range childHist {
 		cm := c16Model(init, version, false, "")
-		if porcupine.CheckOperationsTimeout(cm, h, 10*time.Second) == porcupine.Illegal {
+		cres := c16CheckLin(cm, h, init, tags)
+		if cres == porcupine.Unknown {
+			fail("child trie %d: the linearizability check did not finish (first budget, then %v alone, then per key): undecided counts as a failure", k, c16SlowBudget())
+		}
+		if cres == porcupine.Illegal {
 			tags["child-not-linearizable"] = true
 			var hs []string
 			sort.Slice(h, func(i, j int) bool { return h[i].Call < h[j].Call })
@@ -1283,7 +1478,7 @@ func runC16(ops []string) (res CaseResult) {
 		hist = kh
 		model = c16KeyModel(content)
 	}
-	switch porcupine.CheckOperationsTimeout(model, hist, 10*time.Second) {
+	switch c16CheckLin(model, hist, init, tags) {
 	case porcupine.Illegal:
 		tags["not-linearizable"] = true
 		var hs []string
@@ -1293,7 +1488,8 @@ func runC16(ops []string) (res CaseResult) {
 		}
 		fail("history is not linearizable w.r.t. the map specification (initial content %q, version %d); final root/content are the last two operations: %s", init, version, strings.Join(hs, " ; "))
 	case porcupine.Unknown:
-		tags["linearizability-check-timeout"] = true
+		tags["linearizability-undecided"] = true
+		fail("the linearizability check did not finish (first budget, then %v alone, then per key): undecided counts as a failure (%d operations)", c16SlowBudget(), len(hist))
 	}
 	if !removed {
 		if strings.HasPrefix(finalIter, "ok ") && strings.HasPrefix(finalRoot, "ok ") {
@@ -1306,8 +1502,8 @@ func runC16(ops []string) (res CaseResult) {
 		if finalSaved != finalIter {
 			fail("content readable from the saved change sets on top of the setup snapshot is %q, final content is %q", finalSaved, finalIter)
 		}
-		if finalMissing != "0" && !emptyProbe {
-			fail("missing-node list has %s entries on a complete store", finalMissing)
+		if finalMissing != strconv.Itoa(emptyProbes) {
+			fail("missing-node list has %s entries on a complete store; %d probes of the empty trie (one nil key each) were made", finalMissing, emptyProbes)
 		}
 	} else {
 		fm, _ := strconv.Atoi(finalMissing)
